@@ -634,7 +634,7 @@ def check_toy_modes(ctx, workdir, res, want_classes):
             pf += [x, str(len(cmds))]
             for (k, a, b, ln) in cmds:
                 pf += [k, a, b, str(ln)]
-        for rule in ("brush", "bash"):
+        for rule in ("code", "legacy"):
             for mode in ("file", "c", "source", "eval", "stdin"):
                 cases.append([rule, mode, str(len(ls))] + ls + [str(len(xs))] + ctab + pf)
                 meta.append((t, mode, rule))
@@ -655,30 +655,28 @@ def check_toy_modes(ctx, workdir, res, want_classes):
         if out and out[-1] == "":
             out = out[:-1]
         return out + ["|", str(r[0])]
-    repaired = reproduced = 0
+    reproduced = 0
     for t, (rb, ra) in zip(texts, real):
         for mode in ("file", "c", "source", "eval", "stdin"):
             res["evaluations"] += 1
             code, bash = shape(rb[mode]), shape(ra[mode])
-            m_code, m_spec = by[(t, mode, "brush")], by[(t, mode, "bash")]
-            if bash != m_spec:
-                # the specification (bash's rule for eval line numbers, EXIT path, exit) is wrong: machinery
-                raise core.CheckBroken("toy specification disagrees with bash in mode %s on %r: spec %r bash %r" % (mode, t, m_spec, bash))
-            if code == m_code:
-                if m_code != m_spec:
-                    reproduced += 1
-                    res["spec_violations"].append({"input": {"program": t, "mode": mode}, "known": KF_EVAL,
-                                                   "why": "$LINENO inside eval: %r, specified (and bash) %r" % (code, m_spec)})
-            elif code == m_spec:
-                repaired += 1      # inside the known class the code now equals the spec: repaired upstream
-            else:
+            m_code, m_legacy = by[(t, mode, "code")], by[(t, mode, "legacy")]
+            if bash != m_code:
+                # the model of the code is also the specification (Modes.eval_lineno); it must be bash's behaviour
+                raise core.CheckBroken("toy specification disagrees with bash in mode %s on %r: spec %r bash %r" % (mode, t, m_code, bash))
+            if code != m_code:
                 res["model_mismatches"].append({"what": "front-end model and the real binary differ", "mode": mode, "program": t,
-                                                "code": code, "model": m_code, "spec": m_spec, "stderr": rb[mode][2][:200]})
+                                                "code": code, "model": m_code, "stderr": rb[mode][2][:200]})
+                v = {"input": {"program": t, "mode": mode},
+                     "why": "output/status/$LINENO %r, specified (and bash) %r" % (code, m_code)}
+                if code == m_legacy:
+                    # the repaired defect is back: tagged with its (fixed) finding id, which suppresses nothing
+                    reproduced += 1
+                    v["known"] = KF_EVAL
+                    v["why"] = "KF-C15-eval-lineno-base (fixed by e4871cd) is back: $LINENO inside eval %r, specified (and bash) %r" % (code, m_code)
+                res["spec_violations"].append(v)
             if mode == "stdin" and any(":" in x for x in code):
                 res["nontrivial"].add("toy:" + t)
-    if repaired:
-        res["notes"].append("eval line numbers: the code equals the specification (not the model of the unchanged code) on %d toy runs: "
-                            "KF-C15-eval-lineno-base looks repaired upstream; update Modes.eval_builtin" % repaired)
     res["dist_modes"]["toy_eval_finding_reproduced"] = reproduced
     res["dist_modes"]["toy_programs"] = len(texts)
 
